@@ -101,6 +101,10 @@ def run(chk):
     for i in range(60 if chk.tier == "quick" else 600):
         d, e = G.single_added_member(sg.spec(), rng)
         cases.append({"doc": d, "origin": "edited", "edits": [e]})
+        if i % 2 == 0:
+            d, e = G.single_blank_string(sg.spec(), rng)
+            if e != "none":
+                cases.append({"doc": d, "origin": "edited", "edits": [e]})
     extra = []
     cdir = os.path.join(C.VERIF, "corpus", "C02")
     if os.path.isdir(cdir):
